@@ -97,6 +97,36 @@ func (b *Buffer) Clone() *Buffer {
 	}
 }
 
+// cloneChunk clones the part of the buffer which belongs to the specified chunk. The
+// operations of other chunks belong to other commits of the same transaction.
+func (b *Buffer) cloneChunk(chunk Chunk) *Buffer {
+	clone := &Buffer{
+		Column: b.Column,
+		last:   b.last,
+		chunk:  b.chunk,
+	}
+
+	for i, c := range b.chunks {
+		if c.Chunk != chunk {
+			continue
+		}
+
+		// Find where the range of operations for this chunk ends
+		until := uint32(len(b.buffer))
+		if len(b.chunks) > i+1 {
+			until = b.chunks[i+1].Start
+		}
+
+		clone.chunks = append(clone.chunks, header{
+			Chunk: c.Chunk,
+			Start: uint32(len(clone.buffer)),
+			Value: c.Value,
+		})
+		clone.buffer = append(clone.buffer, b.buffer[c.Start:until]...)
+	}
+	return clone
+}
+
 // Reset resets the queue so it can be reused.
 func (b *Buffer) Reset(column string) {
 	b.last = 0
